@@ -639,7 +639,319 @@ func genLoop(r *Repo) (string, error) {
 		return true
 	})
 	fmt.Fprintf(&b, "(* calls in send() that write to the connection *)\nDefinition send_writes : list string := %s.\n", coqStrList(writes))
+	if err := genShortSections(r, w, files, fds, &b); err != nil {
+		return "", err
+	}
 	return b.String(), nil
+}
+
+// The "short" mutexes of a connection (fidMu: fid table, tagMu: tag table) are taken by every request; whatever
+// runs while one of them is held delays every other request of the connection.  For every function of package p9
+// that locks one of them: the calls made (and the blocking constructs used) while it is held, in source order.
+// A call on a local (not the receiver) prints as _.Method, so the table does not depend on local names.
+var shortMutexes = map[string]bool{"fidMu": true, "tagMu": true}
+
+type shortSection struct {
+	mu, fn string
+	calls  []string
+}
+
+type shortWalker struct {
+	r    *Repo
+	w    *loopWalker
+	fn   string
+	secs map[string]*shortSection
+	ord  []string
+}
+
+func (sw *shortWalker) note(held map[string]bool, what string) {
+	var mus []string
+	for mu, h := range held {
+		if h {
+			mus = append(mus, mu)
+		}
+	}
+	sort.Strings(mus)
+	for _, mu := range mus {
+		sw.section(mu).calls = append(sw.section(mu).calls, what)
+	}
+}
+
+func (sw *shortWalker) section(mu string) *shortSection {
+	s := sw.secs[mu]
+	if s == nil {
+		s = &shortSection{mu: mu, fn: sw.fn}
+		sw.secs[mu] = s
+		sw.ord = append(sw.ord, mu)
+	}
+	return s
+}
+
+// lockOp recognises <path>.<mu>.Lock() / Unlock() on a short mutex.
+func lockOp(c *ast.CallExpr) (mu, op string) {
+	sel, ok := c.Fun.(*ast.SelectorExpr)
+	if !ok || (sel.Sel.Name != "Lock" && sel.Sel.Name != "Unlock") {
+		return "", ""
+	}
+	in, ok := sel.X.(*ast.SelectorExpr)
+	if !ok || !shortMutexes[in.Sel.Name] {
+		return "", ""
+	}
+	return in.Sel.Name, sel.Sel.Name
+}
+
+func (sw *shortWalker) calleeName(c *ast.CallExpr) string {
+	// root identifier of a selector chain
+	e := c.Fun
+	for {
+		if s, ok := e.(*ast.SelectorExpr); ok {
+			e = s.X
+			continue
+		}
+		break
+	}
+	if id, ok := e.(*ast.Ident); ok && sw.w.isLocal(id) {
+		if _, isRecv := sw.w.names[id.Obj]; !isRecv {
+			if sel, ok := c.Fun.(*ast.SelectorExpr); ok {
+				if _, direct := sel.X.(*ast.Ident); direct {
+					return "_." + sel.Sel.Name
+				}
+			}
+			return "_..." + sw.w.peek(c.Fun)
+		}
+	}
+	return sw.w.peek(c.Fun)
+}
+
+// collect records everything in n that runs while a short mutex is held.
+func (sw *shortWalker) collect(n ast.Node, held map[string]bool) {
+	any := false
+	for _, h := range held {
+		any = any || h
+	}
+	if !any || n == nil {
+		return
+	}
+	ast.Inspect(n, func(x ast.Node) bool {
+		switch v := x.(type) {
+		case *ast.CallExpr:
+			if mu, _ := lockOp(v); mu != "" {
+				return true
+			}
+			sw.note(held, sw.calleeName(v))
+		case *ast.UnaryExpr:
+			if v.Op == token.ARROW {
+				sw.note(held, "chan-receive")
+			}
+		case *ast.SendStmt:
+			sw.note(held, "chan-send")
+		case *ast.SelectStmt:
+			sw.note(held, "select")
+		case *ast.GoStmt:
+			sw.note(held, "go")
+		}
+		return true
+	})
+}
+
+func unionHeld(a, b map[string]bool) map[string]bool {
+	n := copyHeld(a)
+	for k, v := range b {
+		if v {
+			n[k] = true
+		}
+	}
+	return n
+}
+
+func (sw *shortWalker) block(list []ast.Stmt, held map[string]bool) (map[string]bool, error) {
+	for _, s := range list {
+		var err error
+		if held, err = sw.stmt(s, held); err != nil {
+			return nil, err
+		}
+	}
+	return held, nil
+}
+
+func (sw *shortWalker) stmt(s ast.Stmt, held map[string]bool) (map[string]bool, error) {
+	switch v := s.(type) {
+	case *ast.ExprStmt:
+		if c, ok := v.X.(*ast.CallExpr); ok {
+			if mu, op := lockOp(c); mu != "" {
+				held = copyHeld(held)
+				if op == "Lock" {
+					if held[mu] {
+						return nil, sw.r.Refuse(c.Pos(), "%s: %s locked twice", sw.fn, mu)
+					}
+					sw.section(mu)
+					held[mu] = true
+				} else {
+					held[mu] = false
+				}
+				return held, nil
+			}
+		}
+		sw.collect(v, held)
+		return held, nil
+	case *ast.DeferStmt:
+		if mu, op := lockOp(v.Call); mu != "" {
+			if op != "Unlock" {
+				return nil, sw.r.Refuse(v.Pos(), "%s: defer %s.Lock", sw.fn, mu)
+			}
+			// held until the function returns: never cleared below
+			return held, nil
+		}
+		// a deferred call runs at return, i.e. while every mutex released by an earlier defer is still held
+		sw.collect(v.Call, held)
+		return held, nil
+	case *ast.IfStmt:
+		if v.Init != nil {
+			var err error
+			if held, err = sw.stmt(v.Init, held); err != nil {
+				return nil, err
+			}
+		}
+		sw.collect(v.Cond, held)
+		h1, err := sw.block(v.Body.List, copyHeld(held))
+		if err != nil {
+			return nil, err
+		}
+		out := copyHeld(held)
+		if !endsInReturn(v.Body) {
+			out = unionHeld(out, h1)
+		}
+		if v.Else != nil {
+			var h2 map[string]bool
+			ret := false
+			switch e := v.Else.(type) {
+			case *ast.BlockStmt:
+				h2, err = sw.block(e.List, copyHeld(held))
+				ret = endsInReturn(e)
+			default:
+				h2, err = sw.stmt(e, copyHeld(held))
+			}
+			if err != nil {
+				return nil, err
+			}
+			if !ret {
+				out = unionHeld(out, h2)
+			}
+		}
+		return out, nil
+	case *ast.BlockStmt:
+		return sw.block(v.List, held)
+	case *ast.ForStmt:
+		sw.collect(v.Init, held)
+		sw.collect(v.Cond, held)
+		sw.collect(v.Post, held)
+		h, err := sw.block(v.Body.List, copyHeld(held))
+		if err != nil {
+			return nil, err
+		}
+		return unionHeld(held, h), nil
+	case *ast.RangeStmt:
+		sw.collect(v.X, held)
+		h, err := sw.block(v.Body.List, copyHeld(held))
+		if err != nil {
+			return nil, err
+		}
+		return unionHeld(held, h), nil
+	case *ast.SwitchStmt, *ast.TypeSwitchStmt, *ast.SelectStmt, *ast.LabeledStmt:
+		// lock operations inside these are not followed: refuse them there, record the rest
+		bad := false
+		ast.Inspect(s, func(x ast.Node) bool {
+			if c, ok := x.(*ast.CallExpr); ok {
+				if mu, _ := lockOp(c); mu != "" {
+					bad = true
+				}
+			}
+			return true
+		})
+		if bad {
+			return nil, sw.r.Refuse(s.Pos(), "%s: lock operation on a short mutex inside %T", sw.fn, s)
+		}
+		sw.collect(s, held)
+		return held, nil
+	}
+	sw.collect(s, held)
+	return held, nil
+}
+
+func genShortSections(r *Repo, w *loopWalker, files map[string]*ast.File, fds map[string]*ast.FuncDecl, b *strings.Builder) error {
+	var rows []string
+	for _, fn := range SortedNames(files) {
+		for _, d := range files[fn].Decls {
+			fd, ok := d.(*ast.FuncDecl)
+			if !ok || fd.Body == nil {
+				continue
+			}
+			uses := false
+			ast.Inspect(fd.Body, func(x ast.Node) bool {
+				if c, ok := x.(*ast.CallExpr); ok {
+					if mu, _ := lockOp(c); mu != "" {
+						uses = true
+					}
+				}
+				return true
+			})
+			if !uses {
+				continue
+			}
+			name := fd.Name.Name
+			if fd.Recv != nil && len(fd.Recv.List) == 1 {
+				name = recvTypeName(fd.Recv.List[0].Type) + "." + name
+			}
+			w.enter(fd)
+			sw := &shortWalker{r: r, w: w, fn: name, secs: map[string]*shortSection{}}
+			// a deferred Unlock keeps the mutex to the end: walk with the explicit operations only, the defer never clears
+			if _, err := sw.block(fd.Body.List, map[string]bool{}); err != nil {
+				return err
+			}
+			// a function literal that locks (e.g. `x, ok := func() { mu.Lock(); defer mu.Unlock(); ... }()`) is a critical
+			// section of the enclosing function: its body is walked on its own, from "nothing held"
+			var lits []*ast.FuncLit
+			ast.Inspect(fd.Body, func(x ast.Node) bool {
+				if fl, ok := x.(*ast.FuncLit); ok {
+					direct := false
+					for _, st := range fl.Body.List {
+						ast.Inspect(st, func(y ast.Node) bool {
+							if _, nested := y.(*ast.FuncLit); nested {
+								return false
+							}
+							if c, ok := y.(*ast.CallExpr); ok {
+								if mu, _ := lockOp(c); mu != "" {
+									direct = true
+								}
+							}
+							return true
+						})
+					}
+					if direct {
+						lits = append(lits, fl)
+					}
+				}
+				return true
+			})
+			for _, fl := range lits {
+				if _, err := sw.block(fl.Body.List, map[string]bool{}); err != nil {
+					return err
+				}
+			}
+			for _, mu := range sw.ord {
+				s := sw.secs[mu]
+				rows = append(rows, fmt.Sprintf("  (%s, %s, %s)", CoqString(s.mu), CoqString(s.fn), coqStrList(s.calls)))
+			}
+		}
+	}
+	fmt.Fprintf(b, "\n(* (mutex, function, calls made / blocking constructs used while it is held) for every function of package p9 that locks the fid table's or the tag table's mutex *)\nDefinition short_sections : list (string * string * list string) := [\n%s\n].\n", strings.Join(rows, ";\n"))
+	inc := fds["fidRef.IncRef"]
+	if inc == nil || inc.Body == nil {
+		return fmt.Errorf("p9: fidRef.IncRef not found")
+	}
+	w.enter(inc)
+	fmt.Fprintf(b, "Definition body_fidRef_IncRef : list string := %s.\n", coqStrList(stmtLines(w, inc.Body)))
+	return nil
 }
 
 func init() { register(Generator{Name: "LoopGen", Run: genLoop}) }
